@@ -71,7 +71,7 @@ var concEndpoints = []int{0, 1, 2, 3, 4, 8, 9, 10, 11, 12} // no allow-listed en
 
 func TestConcurrentBoundsAndQuiescentSum(t *testing.T) {
 	name := t.Name()
-	hx.Check(t, 300, 12000, 0, func(rt *rapid.T) {
+	hx.Check(t, 300, 60000, 0, func(rt *rapid.T) {
 		cfg := drawConfig(rt)
 		// make the top scopes finite but roomy so that both admission and refusal happen under contention
 		for _, n := range []string{sSystem, sTransient} {
